@@ -4,7 +4,7 @@ From mathcomp Require Import complex.
 Require Import ZArith.
 Require Import MPSV.Hess.HessModel MPSV.Hess.HessModelM MPSV.Hess.HessDet MPSV.Hess.HessScale MPSV.Hess.HessApriori
                MPSV.Hess.HessErrVec MPSV.Hess.HessGauss MPSV.Hess.HessTie MPSV.Hess.HessStd
-               MPSV.Hess.HessMul3 MPSV.Hess.HessErrHead.
+               MPSV.Hess.HessMul3 MPSV.Hess.HessErrHead MPSV.Hess.HessModelF MPSV.Hess.HessRange.
 Require MPSV.Hess.HessB64.
 
 Set Implicit Arguments.
@@ -333,3 +333,55 @@ Example C20_mhess_head_nonvacuous :
   * (@mhess_head int int (flops toy_model2) id (fun z => z == 0) +%R *%R 0 1 (fun x => `|x|) L3h 3 0 = (688, 5682))
   * (hess_rec (rops _) L3h 3 0 = 172).
 Proof. exact: toy_head_values. Qed.
+
+(* ---- double variant: the loop WITH its rescaling test (HessModelF.fhess_code: `if (i % 50 == 0)`, i.e. after
+   the passes l = 1, 51, 101, ...; [ex vec] = the exponent frexp delivers for the largest modulus; off the
+   period the vector is not touched) --------------------------------------------------------------------------
+   In exact arithmetic the returned pair still denotes the determinant, whatever [ex] is. *)
+Theorem C20_fhess_code_is_det :
+  forall (F : fieldType), (2%:R : F) != 0 ->
+  forall (ex : seq F -> int) (m : nat) (H : 'M[F]_m.+1) (Hl : seq F) (s : F),
+    upper_hessenberg H -> row_major Hl H ->
+    let r := @fhess_code F (rops F) int +%R (@fscale F) ex 0 Hl m.+1 s in
+    r.1 * 2%:R ^ r.2 = \det (H - s%:M).
+Proof. move=> F two ex m H Hl s; exact: fhess_code_is_det. Qed.
+Print Assumptions C20_fhess_code_is_det.
+
+(* Every order n: with rounded operations (any round_model; no underflow/overflow in the model), A >= the moduli
+   of the entries and of the computed H[i][i] - shift, G >= max (1, (1+es)(1+em) 2A) the growth of one pass,
+   rho >= the moduli after a rescaling and Emax >= |frexp exponent| (the specification of frexp / pow / the
+   exact division by a power of two: rho = 1 + a few ulps, Emax = 1074 for finite doubles), V >= max (A, rho):
+   EVERY state (vector, accumulated exponent) the loop holds -- after the arithmetic of a pass and after its
+   rescaling test, [fhess_code_tr] lists them all -- has all moduli <= V * G^50 (period 50 against growth G per
+   pass) and |accumulated exponent| <= Emax * (n-1), far inside a long.  So with 2A(1+es)(1+em) <= 2^10 the
+   doubles held stay below V * 2^500: no overflow.  Underflow is NOT excluded (entries far below the largest
+   one may be flushed by the division). *)
+Theorem C20_fhess_range :
+  forall (R : comRingType) (F : numDomainType) (M : round_model R F)
+         (scale : int -> R -> R) (ex : seq R -> int) (Hl : seq R) (n : nat) (s : R)
+         (A G V rho : F) (Emax : int),
+    (forall k, rm_N M (nth 0 Hl k) <= A) -> (forall k, rm_N M (rm_fsub M (nth 0 Hl k) s) <= A) ->
+    1 <= G -> (1 + rm_es M) * (1 + rm_em M) * (A + A) <= G ->
+    rho <= V -> A <= V ->
+    (forall v, all (fun x => rm_N M (scale (ex v) x) <= rho) v) ->
+    (forall v, `|ex v| <= Emax) ->
+    forall st, st \in @fhess_code_tr R (flops M) int +%R scale ex 0 Hl n s ->
+      all (fun x => rm_N M x <= V * G ^+ 50) st.1 && (`|st.2| <= Emax *+ n.-1).
+Proof. move=> R F M scale ex Hl n s A G V rho Emax h1 h2 h3 h4 h5 h6 h7 h8 st; exact: (fhess_range h1 h2 h3 h4 h5 h6 h7 h8). Qed.
+Print Assumptions C20_fhess_range.
+
+(* for n >= 2 the returned mantissa comes out of a rescaling (the last pass, l = 1, always rescales) *)
+Theorem C20_fhess_mantissa :
+  forall (R : comRingType) (F : numDomainType) (M : round_model R F)
+         (scale : int -> R -> R) (ex : seq R -> int) (Hl : seq R) (s : R) (rho : F) (m : nat),
+    0 <= rho -> (forall v, all (fun x => rm_N M (scale (ex v) x) <= rho) v) ->
+    rm_N M (@fhess_code R (flops M) int +%R scale ex 0 Hl m.+2 s).1 <= rho.
+Proof. move=> R F M scale ex Hl s rho m r0 hs; exact: (@fhess_mantissa R F M scale ex Hl m.+2 s rho r0 hs m). Qed.
+Print Assumptions C20_fhess_mantissa.
+
+(* the hypotheses on (scale, ex) are jointly satisfiable with operations that round (a rescaling that flushes
+   to zero: rho = 0, Emax = 1); the result of the model on the 3 x 3 example is then (0, 1) *)
+Example C20_fhess_range_nonvacuous :
+  [/\ forall v, all (fun x : int => `|toy_scale (toy_ex v) x| <= 0) v, forall v, `|toy_ex v| <= 1
+     & @fhess_code int (flops toy_model) int +%R toy_scale toy_ex 0 [:: 2; 3; 5; 7; 11; 13; 0; 17; 19] 3 1 = (0, 1)].
+Proof. split; [exact: toy_ex_scale | exact: toy_ex_range | exact: toy_range_value]. Qed.
